@@ -24,7 +24,7 @@ pub fn property() -> Property {
             "a peer may legitimately address the sibling stream or leave its byte stream inside an unfinished frame: the sibling oracle applies only when the hostile bytes end on a frame boundary and do not address the sibling",
             "server sessions in Lab-M have no dial handler attached (streams surface to the harness), so fuzzed destinations never reach a socket",
         ],
-        families: vec![(Box::new(SessFam), 40_000, 320_000), (Box::new(ParseFam), 40_000, 320_000), (Box::new(HttpFam), 400, 3_000)],
+        families: vec![(Box::new(SessFam), 40_000, 320_000), (Box::new(ParseFam), 40_000, 320_000), (Box::new(HttpFam), 400, 3_000), (Box::new(ServerTunnelFam), 300, 3_000)],
     }
 }
 
@@ -677,6 +677,185 @@ impl Family for HttpFam {
         out.class_if(case.base.is_none(), "raw-bytes");
         out.class_if(ended, "connection-ended");
         out.class_if(!ended, "connection-still-open");
+        Ok(out)
+    }
+}
+
+// ------------------------------------------------------------------------------------------
+// family `server_tunnel` (Lab-S): hostile frame sequences from a reference client over TLS against
+// the real server with its default handler; destinations are confined to harness-owned targets
+
+use crate::lab_sock::refpeer::{RefClient, ref_preamble};
+
+#[derive(Clone, Debug, Serialize, Deserialize)]
+pub enum TOp {
+    Syn(u8),
+    /// first data of a stream: a destination from the safe set (0 echo, 1 refusing port, 2 `localhost`, 3 invalid address type, 4 truncated destination)
+    Dest(u8, u8),
+    Psh(u8, usize),
+    Fin(u8),
+    SynAck(u8),
+    Heart,
+    Settings(String),
+    Alert,
+    Waste(usize),
+    UpdatePadding,
+    ServerSettings,
+}
+
+#[derive(Clone, Debug, Serialize, Deserialize)]
+pub struct ServerTunnelCase {
+    pub ops: Vec<TOp>,
+    pub raw_tail: Vec<u8>,
+}
+
+pub struct ServerTunnelFam;
+
+impl Family for ServerTunnelFam {
+    type Case = ServerTunnelCase;
+    fn name(&self) -> &'static str {
+        "server_tunnel"
+    }
+    fn strategy(&self, _tier: Tier) -> BoxedStrategy<ServerTunnelCase> {
+        let id = 0u8..4;
+        let op = prop_oneof![
+            4 => id.clone().prop_map(TOp::Syn),
+            4 => (id.clone(), 0u8..5).prop_map(|(i, d)| TOp::Dest(i, d)),
+            4 => (id.clone(), prop_oneof![Just(0usize), Just(1), Just(100), Just(9000), Just(65535)]).prop_map(|(i, n)| TOp::Psh(i, n)),
+            2 => id.clone().prop_map(TOp::Fin),
+            1 => id.prop_map(TOp::SynAck),
+            1 => Just(TOp::Heart),
+            1 => prop_oneof![Just("v=2".to_string()), Just("v=1".to_string()), Just("padding-md5=x\nv=255".to_string()), "[ -~\\n]{0,40}"].prop_map(TOp::Settings),
+            1 => Just(TOp::Alert),
+            1 => prop_oneof![Just(0usize), Just(30), Just(65535)].prop_map(TOp::Waste),
+            1 => Just(TOp::UpdatePadding),
+            1 => Just(TOp::ServerSettings),
+        ];
+        (proptest::collection::vec(op, 1..16), prop_oneof![4 => Just(Vec::new()), 1 => proptest::collection::vec(any::<u8>(), 1..40)]).prop_map(|(ops, raw_tail)| ServerTunnelCase { ops, raw_tail }).boxed()
+    }
+    fn case_budget_s(&self) -> u64 {
+        120
+    }
+    fn run(&self, case: &ServerTunnelCase, _cx: &CaseCtx) -> CaseResult {
+        let mut out = Outcome::new();
+        let c = case.clone();
+        let panics_before = PANIC_COUNT.load(std::sync::atomic::Ordering::SeqCst);
+        let r: Result<(bool, bool), Fail> = with_world(|w| {
+            w.rt.block_on(async {
+                let case = c;
+                let mut cl = RefClient::connect(w.server).await?;
+                let _ = cl.send_raw(&ref_preamble(PASSWORD, 7)).await;
+                // a sibling stream on the hostile connection, opened and verified first
+                const SIB: u32 = 0x0051_B11A;
+                let md5 = format!("{:x}", md5::compute(anytls_rs::padding::DEFAULT_PADDING_SCHEME.as_bytes()));
+                let _ = cl
+                    .send(&[
+                        RFrame::new(rc::SETTINGS, 0, format!("v=2\nclient=ref\npadding-md5={md5}").into_bytes()),
+                        RFrame::ctl(rc::SYN, SIB),
+                        RFrame::new(rc::PSH, SIB, Dest::of(w.echo_b.addr).encode()),
+                        RFrame::new(rc::PSH, SIB, b"sibling-1".to_vec()),
+                    ])
+                    .await;
+                let echoed = cl.wait_for(10_000, |f| f.cmd == rc::PSH && f.sid == SIB).await;
+                if echoed.map(|f| f.data) != Some(b"sibling-1".to_vec()) {
+                    return Err(infra("the sibling stream of the hostile connection could not be established"));
+                }
+                // the hostile part
+                let ids = [1u32, 2, 3, 0xFFFF_FFFF];
+                let mut frames: Vec<RFrame> = Vec::new();
+                let mut dest_sent = [false; 4];
+                let mut alert = false;
+                for op in &case.ops {
+                    match op {
+                        TOp::Syn(i) => {
+                            frames.push(RFrame::ctl(rc::SYN, ids[*i as usize % 4]));
+                            dest_sent[*i as usize % 4] = false;
+                        }
+                        TOp::Dest(i, d) => {
+                            let k = *i as usize % 4;
+                            let bytes = match d % 5 {
+                                0 => Dest::of(w.echo_a.addr).encode(),
+                                1 => Dest::of(w.closed_port).encode(),
+                                2 => Dest::Name("localhost".into(), w.echo_local.addr.port()).encode(),
+                                3 => vec![5, 1, 2, 3],
+                                _ => Dest::of(w.echo_a.addr).encode()[..3].to_vec(),
+                            };
+                            frames.push(RFrame::new(rc::PSH, ids[k], bytes));
+                            dest_sent[k] = true;
+                        }
+                        TOp::Psh(i, n) => {
+                            let k = *i as usize % 4;
+                            // payload is only sent behind a destination: otherwise it would BE the destination
+                            if dest_sent[k] {
+                                frames.push(RFrame::new(rc::PSH, ids[k], keyed(k as u32, 3, 0, *n)));
+                            }
+                        }
+                        TOp::Fin(i) => frames.push(RFrame::ctl(rc::FIN, ids[*i as usize % 4])),
+                        TOp::SynAck(i) => frames.push(RFrame::ctl(rc::SYNACK, ids[*i as usize % 4])),
+                        TOp::Heart => frames.push(RFrame::ctl(rc::HEART_REQ, 0)),
+                        TOp::Settings(t) => frames.push(RFrame::new(rc::SETTINGS, 0, t.clone().into_bytes())),
+                        TOp::Alert => {
+                            frames.push(RFrame::new(rc::ALERT, 0, b"x".to_vec()));
+                            alert = true;
+                        }
+                        TOp::Waste(n) => frames.push(RFrame::new(rc::WASTE, 0, vec![0; *n])),
+                        TOp::UpdatePadding => frames.push(RFrame::new(rc::UPDATE_PADDING, 0, b"stop=1".to_vec())),
+                        TOp::ServerSettings => frames.push(RFrame::new(rc::SERVER_SETTINGS, 0, b"v=9".to_vec())),
+                    }
+                }
+                let _ = cl.send(&frames).await;
+                if !case.raw_tail.is_empty() {
+                    let _ = cl.send_raw(&case.raw_tail).await;
+                }
+                let _ = cl.drain(150).await;
+                let aligned = case.raw_tail.is_empty();
+                let mut sibling_checked = false;
+                if !cl.eof && aligned && !alert {
+                    // C20.clean: the sibling on the same session still transfers exactly
+                    let seen_before = cl.seen.len();
+                    let _ = cl.send(&[RFrame::new(rc::PSH, SIB, b"sibling-2".to_vec())]).await;
+                    let got = cl.wait_for(10_000, |f| f.cmd == rc::PSH && f.sid == SIB && f.data == b"sibling-2").await;
+                    if got.is_none() && !cl.eof {
+                        return Err(Fail::plain(
+                            "C20.clean",
+                            format!("after {} hostile frames (none addressed to it) the sibling stream of the same session no longer echoes, and the session is not closed either ({} frames received meanwhile)", frames.len(), cl.seen.len() - seen_before),
+                        ));
+                    }
+                    sibling_checked = got.is_some();
+                }
+                // C20.others: another session through the same server is unaffected
+                match socks5_connect(w.socks, &Dest::of(w.echo_a.addr)).await {
+                    Ok(mut s) => {
+                        use tokio::io::{AsyncReadExt, AsyncWriteExt};
+                        s.write_all(b"other-session").await.map_err(|e| Fail::plain("C20.others", format!("neighbour session: {e}")))?;
+                        let mut b = [0u8; 13];
+                        let ok = tokio::time::timeout(Duration::from_secs(10), s.read_exact(&mut b)).await;
+                        if !matches!(ok, Ok(Ok(_))) || &b != b"other-session" {
+                            return Err(Fail::plain("C20.others", "another session through the same server stopped working after the hostile connection"));
+                        }
+                    }
+                    Err(e) => return Err(Fail::plain("C20.others", format!("a fresh request through the same server fails after the hostile connection (reply {:?})", e))),
+                }
+                Ok((sibling_checked, cl.eof))
+            })
+        });
+        let (sib, closed) = match r {
+            Ok(x) => x,
+            Err(f) => {
+                reset_world();
+                return Err(f);
+            }
+        };
+        let panics = PANIC_COUNT.load(std::sync::atomic::Ordering::SeqCst) - panics_before;
+        if panics > 0 {
+            let msg = LAST_PANIC.lock().map(|l| l.clone()).unwrap_or_default();
+            return Err(Fail::new("C20.panic", "C20.panic:task", format!("{panics} task panic(s) in the process while the hostile connection was served: {msg}")));
+        }
+        out.nt(case.ops.len() >= 3);
+        out.class_if(sib, "sibling-still-served");
+        out.class_if(closed, "server-closed-the-session");
+        out.class_if(case.ops.iter().any(|o| matches!(o, TOp::Dest(_, 1))), "refusing-destination");
+        out.class_if(case.ops.iter().any(|o| matches!(o, TOp::Fin(_))), "fin");
         Ok(out)
     }
 }
